@@ -209,6 +209,11 @@ func judge(w *polworld.World, c tcase) (o outcome) {
 			}
 		}
 	}
+	// every candidate the task loop reaches must actually be sent the replica: the object source has to
+	// serve all candidates of one task (stream-consuming clients, see polworld.consumeLikeSDK)
+	if len(w.ReplPrepErrs) > 0 {
+		return fail("replicator:candidate-not-contacted:object-source-exhausted-by-an-earlier-candidate", "candidate(s) %v were never sent the replica", w.ReplPrepErrs)
+	}
 	if len(w.ShardTrims) > 0 {
 		if o.deleted {
 			return fail("shard-trim-and-drop-in-one-pass", "DeleteRedundantCopies and Delete both called")
